@@ -384,6 +384,62 @@ def run(prop, tier, seed):
                           replay_payload={"engine": "sync", "tier": tier, "seed": seed})
 
 
+def run_teardown(tier, seed):
+    """C13, multi-threaded part: clone / drop of arena values on different threads (own_clones scenarios)."""
+    binary = rv.build_harness("dev")
+    rng = random.Random(seed + 5)
+    scs = [s for s in scenarios(tier) if s[1].get("own_clones")]
+    with ThreadPoolExecutor(max_workers=4) as ex:
+        analysed = list(ex.map(analyse_scenario, [(s, tier, seed, binary) for s in scs]))
+    drivers = []
+    for a in analysed:
+        for i, cx in enumerate(a["cex"]):
+            drivers.append({"id": "cex:%s:%s:%d" % (a["name"], cx["prop"], i), "cfg": a["cfg"], "setup": a["setup"], "threads": a["progs"],
+                            "schedule": cx["schedule"], "budget": 6000})
+        for i, sc in enumerate(a["schedules"]):
+            drivers.append({"id": "sim:%s:%d" % (a["name"], i), "cfg": a["cfg"], "setup": a["setup"], "threads": a["progs"], "schedule": sc, "budget": 6000})
+        for i in range(80 if tier == "quick" else 800):
+            drivers.append({"id": "pct:%s:%d" % (a["name"], i), "cfg": a["cfg"], "setup": a["setup"], "threads": a["progs"],
+                            "schedule": random_schedule(rng, len(a["progs"]), rng.choice([10, 30, 80])), "budget": 6000})
+    trace = es.run_conc(binary, drivers, "teardown-%s" % tier)
+    pr = rv.validate_trace(trace, "TraceSyncProp.tla", "TraceSyncProp.cfg", "teardown-prop")
+    lines = pr["lines"]
+    by_id = {d["id"]: d for d in drivers}
+    viol = []
+    for (p, pred, gl, th_) in pr["viol"]:
+        if p != "C13":
+            continue
+        reset, ev = rv.locate(lines, gl)
+        did = reset["id"]
+        viol.append({"prop": p, "pred": pred, "driver": did, "i": gl, "arena": th_, "op": ev.get("op"), "res": ev.get("res"),
+                     "sig": "C13:%s@concurrent-teardown" % pred, "driver_obj": dict(by_id[did], engine="sync")})
+    for a in analysed:
+        for i, cx in enumerate(a["cex"]):
+            if cx["prop"].startswith(("Freed", "NoAccessAfter")):
+                did = "cex:%s:%s:%d" % (a["name"], cx["prop"], i)
+                if not [v for v in viol if v["driver"] == did]:
+                    raise ToolError("model counterexample %s does not reproduce on the real code" % did)
+    # implementation-level conformance of the reference-count / unmount steps
+    drift = []
+    wd = os.path.join(rv.WORK, "val", "teardown-impl")
+    shutil.rmtree(wd, ignore_errors=True)
+    rv.ensure_dir(wd)
+    per, cur = {}, None
+    for ln in lines:
+        if ln.startswith('{"cfg"') or '"ev":"reset"' in ln[:600]:
+            cur = json.loads(ln)["id"].split(":")[1]
+        per.setdefault(cur, []).append(ln)
+    for a in analysed:
+        tf = os.path.join(wd, a["name"] + ".ndjson")
+        with open(tf, "w") as f:
+            f.writelines(per.get(a["name"], []))
+        for (gl, th_, what) in es.validate_impl(tf, os.path.join(wd, a["name"]), "TS_" + a["name"], a["cfg"], a["setup_text"], a["progs"]):
+            drift.append({"what": what, "driver": a["name"], "i": gl, "arena": th_, "op": None})
+    cov = {"states": sum(a["distinct"] for a in analysed), "transitions": sum(a["generated"] for a in analysed),
+           "drivers": len(drivers), "events": len(lines)}
+    return cov, viol, drift
+
+
 def replay(payload):
     d = payload["driver"]
     prop = payload["property"]
